@@ -1,8 +1,8 @@
 (* C16 - schema-supplied strings are data, never code. *)
 From Coq Require Import List String Ascii NArith Bool.
 From Coq Require Import ZArith.
-From Verif Require Import PyStrLit PyStrLitProofs PyLit PyLitProofs PyLine PyLineProofs Splice DefaultLit DefaultLitProofs SpliceProofs PyUse PyUseProofs SpliceUse.
-From VerifGen Require Import K10.
+From Verif Require Import PyStrLit PyStrLitProofs PyLit PyLitProofs PyLine PyLineProofs Splice DefaultLit DefaultLitProofs SpliceProofs PyUse PyUseProofs SpliceUse LitRepr LitReprProofs LitReprK.
+From VerifGen Require Import K10 K116a.
 Import ListNotations.
 Open Scope string_scope.
 Open Scope N_scope.
@@ -288,6 +288,50 @@ Example C16_use_injection :
   /\ uses (codes "kwargs[""it's""] = {'a': 1, 'b'}")
   = Some [(USub, VS (codes "it's")); (UDictKey, VS (codes "a")); (UElem, VS (codes "b"))].
 Proof. repeat split; vm_compute; reflexivity. Qed.
+
+(* ------------------------------------------------------------------ round 6: helpers.literal_repr
+   The text of a Literal value goes through literal_repr.  K116a reads its loop from /repo (tuple of
+   bases in order, hit branch, fallback); LitRepr.v interprets such a table on objects with a builtin
+   payload, an exact-type flag and - for instances of subclasses - an ARBITRARY own __repr__. *)
+
+(* for every good table (first matching base of every payload kind is its own builtin type - bool before
+   int -, hits go through base.__repr__, the fallback is repr): for all objects the Literal guards admit,
+   whatever their class overrides, the text is the builtin repr of the payload ... *)
+Theorem C16_literal_repr_general : forall bases hit fb, lr_table_ok bases hit fb = true ->
+  forall p v, obj_wf v = true -> lr_model p bases hit fb v = Some (render_lit p (o_prim v)).
+Proof. exact lr_inert. Qed.
+Print Assumptions C16_literal_repr_general.
+
+(* ... /repo's literal_repr is a good table, so this holds for it ... *)
+Theorem C16_literal_repr_inert : forall p v, obj_wf v = true ->
+  lr_model p literal_repr_bases literal_repr_hit literal_repr_fallback v = Some (render_lit p (o_prim v)).
+Proof. exact literal_repr_inert. Qed.
+Print Assumptions C16_literal_repr_inert.
+
+(* ... and the text evaluates back to exactly the payload *)
+Theorem C16_literal_repr_eval : forall p v rest,
+  oracle_ok p -> obj_wf v = true -> wf_lit (o_prim v) -> ends_token rest = true ->
+  exists t, lr_model p literal_repr_bases literal_repr_hit literal_repr_fallback v = Some t
+            /\ eval_lit (t ++ rest) = Some (o_prim v, rest).
+Proof. exact literal_repr_eval. Qed.
+Print Assumptions C16_literal_repr_eval.
+
+(* the pre-12c7fd8 renderer (repr(value)) emits the subclass's text; int before bool renders True as 1 *)
+Theorem C16_literal_repr_refuted :
+  lr_model (fun _ => true) [BBool; BInt; BStr; BBytes] HOwnRepr HOwnRepr (mk_obj (PyLit.LStr (codes "v")) false evil) = Some evil
+  /\ lr_table_ok [BBool; BInt; BStr; BBytes] HOwnRepr HOwnRepr = false
+  /\ lr_model (fun _ => true) [BInt; BBool; BStr; BBytes] HBaseRepr HOwnRepr (mk_obj (LBool true) true []) = Some (codes "1")
+  /\ lr_table_ok [BInt; BBool; BStr; BBytes] HBaseRepr HOwnRepr = false.
+Proof. exact lr_refuted. Qed.
+Print Assumptions C16_literal_repr_refuted.
+
+Example C16_nonvacuous_literal_repr :
+  obj_wf (mk_obj (PyLit.LStr (codes "v")) false evil) = true /\
+  lr_model (fun _ => true) literal_repr_bases literal_repr_hit literal_repr_fallback (mk_obj (PyLit.LStr (codes "v")) false evil)
+  = Some (codes "'v'") /\
+  lr_model (fun _ => true) literal_repr_bases literal_repr_hit literal_repr_fallback (mk_obj (LBool true) true [])
+  = Some (codes "True").
+Proof. exact literal_repr_example. Qed.
 
 (* non-vacuity: the hypotheses are met by the adversarial strings, the table is not empty
    and contains every position class the property names *)
